@@ -38,7 +38,8 @@ EXPLANATION = (
     "slacks are NODE_TYPE==P & connected, thermal slacks NODE_TYPE_T in {T, GE}, FLOW_RETURN_CONNECT branches are removed "
     "before and re-admitted after the search only if both ends are connected and the branch is active, and its writers "
     "are exactly FlowControl (control_active rows) and HeatConsumer; (R4.7) the adjacency concatenations of "
-    "_connectivity are pairwise aligned; (R4.8) the hooks that run on the reduced pit inside the Newton loop "
+    "_connectivity are pairwise aligned; (R4.9) valves attached to pipe ends share an internal node exactly when both reference columns (junction, pipe) agree "
+    "(row-wise np.unique over both from_to_node_cols of the et == 'pi' rows). (R4.8) the hooks that run on the reduced pit inside the Newton loop "
     "(adaption_before/after_derivatives_*) read no element table of the net -- per-element data reaches them through the "
     "pit or through get_component_array, which is reduced by the same active lookup. Not decided: the graph-search result itself and equality with the reduced "
     "network (runtime).")
@@ -666,4 +667,30 @@ def r4_8(run):
     run.floor(15)
 
 
-RULES = [("R4.1", r4_1), ("R4.2", r4_2), ("R4.3", r4_3), ("R4.4", r4_4), ("R4.5", r4_5), ("R4.7", r4_7), ("R4.8", r4_8)]
+def r4_9(run):
+    """a closed valve at a pipe end isolates what lies behind it only if it has its own internal node: valves attached to pipes
+    share an internal node exactly when they sit at the same junction AND on the same pipe, i.e. the grouping key is the pair of
+    both reference columns, compared row-wise (a key built from one column, or a scalar combination, merges distinct pipe ends)"""
+    ix = run.index
+    f = ix.func("pandapipes.component_models.valve_component.Valve.get_internal_node_number")
+    run.analysed(f)
+    w = run.where(f, f.node)
+    r = ANF(ix, f).run()
+    un = [c for c in r.calls() if c.fn == ("x", "numpy.unique")]
+    _shape(len(un) == 1 and un[0].args, "Valve.get_internal_node_number groups the pipe valves with one np.unique call")
+    X = un[0].args[0]
+    ftc = ("call", ("attr", ("n", f.params()[0]), "from_to_node_cols"), (), ())
+    both = any(x[0] == "idx" and len(x[2]) == 1 and (
+        x[2][0] == ("call", ("x", "builtins.list"), (ftc,), ()) or x[2][0] == ftc or
+        (x[2][0][0] in ("list", "tuple") and {key(i) for i in x[2][0][1]} == {key(("proj", ftc, 0)), key(("proj", ftc, 1))})) for x in walk(X))
+    arith = any(x[0] in ("opn", "op") and x[1] in ("+", "*", "-", "/", "//", "%") for x in walk(X))
+    run.ob("valve-nodes|key-is-junction-and-pipe", both and not arith,
+           "pipe valves are grouped by both reference columns (junction, pipe)", run.where(f, un[0].node), detail=show(X)[:200])
+    run.ob("valve-nodes|row-wise-unique", dict(un[0].kw).get("axis") == C(0),
+           "the pairs are compared row-wise (np.unique(..., axis=0))", run.where(f, un[0].node))
+    pv = expect(ix, f, "net[%s.table_name()]['et'].values == 'pi'" % f.params()[0])
+    run.ob("valve-nodes|only-pipe-valves", contains(X, pv), "only valves attached to pipes (et == 'pi') get internal nodes", w)
+    run.floor(3)
+
+
+RULES = [("R4.1", r4_1), ("R4.2", r4_2), ("R4.3", r4_3), ("R4.4", r4_4), ("R4.5", r4_5), ("R4.7", r4_7), ("R4.8", r4_8), ("R4.9", r4_9)]
